@@ -14,6 +14,11 @@ def main():
     ap.add_argument("--seed", default=None)
     ap.add_argument("--shrink", action="store_true")
     ns = ap.parse_args()
+    for stream in (sys.stdout, sys.stderr):
+        try:
+            stream.reconfigure(errors="backslashreplace")  # witnesses may quote sample strings with unpaired surrogates
+        except Exception:
+            pass
     if ns.tier:
         os.environ["VERIF_TIER"] = ns.tier
     if ns.seed is not None:
